@@ -135,6 +135,32 @@ def run(pid, tier, args):
         res, exp, mism, done, _ = mc_and_replay(wd, vhbin, rawpath, maxin, extra)
         v.add_tlc(res)
         v.validated(done[0])
+        if "x" not in alpha:
+            # invalid UTF-8 bytes (quick tier keeps them out of the main alphabet): a small family over {a, b, 0xFF}
+            xd = os.path.join(wd, "xbytes")
+            os.makedirs(xd)
+            xcases = [{"id": "KX0", "rules": {"Root": [gen_lex.rule("[^ab]+", True, "push", "S1"), gen_lex.rule("a")], "S1": [gen_lex.named("Ref0", "\\0"), gen_lex.rule("[a-c]"), gen_lex.rule("b", act="pop")]}},
+                      {"id": "KX1", "rules": {"Root": [gen_lex.rule("(?s)."), gen_lex.rule("a")]}},
+                      {"id": "KX2", "rules": {"Root": [gen_lex.rule("[^a]"), gen_lex.rule("a+")]}}]
+            xraw = os.path.join(xd, "raw.json")
+            gen_lex.write(xraw, list("abx"), xcases)
+            vlib.vh(vhbin, ["lex-prep", xraw, os.path.join(xd, "cases.json")])
+            shutil.copy(os.path.join(xd, "cases.json"), os.path.join(wd, "cases.json.main")) if False else None
+            import shutil as _sh
+            _sh.copy(os.path.join(wd, "cases.json"), os.path.join(wd, "cases-main.json"))
+            _sh.copy(os.path.join(xd, "cases.json"), os.path.join(wd, "cases.json"))
+            xres, xexp, xmism, xdone, _ = mc_and_replay(wd, vhbin, xraw, 4, extra)
+            _sh.copy(os.path.join(wd, "cases-main.json"), os.path.join(wd, "cases.json"))
+            if xres.violation:
+                raise Infra("specification invariant failed on the model: %s" % xres.violation)
+            v.add_tlc(xres)
+            v.validated(xdone[0])
+            for c in xcases:
+                byid[c["id"]] = c
+                cases.append(c)
+            for m in xmism:
+                m["alpha"] = list("abx")
+            mism = mism + xmism
         if res.violation:
             # an invariant of the specification failed on the model itself: with the intended semantics this is a
             # specification defect unless the real code shows it too (the replay below decides)
@@ -149,6 +175,35 @@ def run(pid, tier, args):
                 raise Infra("vacuity: no run of the model ends with %s" % need)
         v.notes["runs_by_outcome"] = whys
         if pid == "C03":
+            # recorded findings: re-judge the mismatching runs with the finding's named deviation switched on
+            cand = [m for m in mism if m["why"] != "underflow"]
+            known = {}
+            for f in vlib.known_for(pid):
+                if not cand or not f.get("deviation"):
+                    continue
+                kd = os.path.join(wd, "known-" + f["id"])
+                os.makedirs(kd)
+                kalpha = cand[0].get("alpha", alpha)
+                cand_a = [m for m in cand if m.get("alpha", alpha) == kalpha]
+                kcases = [byid[c] for c in sorted(set(m["case"] for m in cand_a))]
+                kraw = os.path.join(kd, "raw.json")
+                gen_lex.write(kraw, kalpha, kcases)
+                vlib.vh(vhbin, ["lex-prep", kraw, os.path.join(kd, "cases.json")])
+                kres = vlib.run_tlc(wd, "MC_StatefulLexer", modules=["StatefulLexer", "Regex", "Position"], extra_files=[os.path.join(kd, "cases.json")],
+                                    consts={"MaxIn": maxin, "ExtraCalls": extra, f["deviation"]: "TRUE"}, timeout=3000)
+                if not kres.ok and kres.violation is None:
+                    raise Infra("known-finding re-judgement failed: %s" % kres.error)
+                dev = {}
+                for fl in vlib.parse_lines(kres.lines, "EXPECT"):
+                    dev[(fl[0], fl[1])] = "|".join(fl[3:])
+                for m in cand:
+                    if dev.get((m["case"], m["input"])) == m["real"]:
+                        known[(m["case"], m["input"])] = f
+            for m in cand:
+                f = known.get((m["case"], m["input"]))
+                if f:
+                    v.known_hit(f, "rule map %s on input %r: real %s, intended %s" % (m["case"], m["input"], m["real"], m["spec"]))
+            mism = [m for m in mism if (m["case"], m["input"]) not in known]
             for l in sym_bad[:2]:
                 v.violation("symbol table differs: " + l, {"property": pid, "kind": "symbols", "detail": l})
             seen = set()
@@ -160,7 +215,7 @@ def run(pid, tier, args):
                     continue
                 seen.add(key)
                 v.violation("rule map %s on input %r: real %s, specification %s" % (m["case"], m["input"], m["real"], m["spec"]),
-                            {"property": pid, "kind": "lexrun", "alpha": alpha, "case": byid[m["case"]], "input": m["input"], "why": m["why"], "spec": m["spec"], "real": m["real"]})
+                            {"property": pid, "kind": "lexrun", "alpha": m.get("alpha", alpha), "case": byid[m["case"]], "input": m["input"], "why": m["why"], "spec": m["spec"], "real": m["real"]})
         else:
             seen = set()
             for m in mism:
